@@ -112,7 +112,9 @@ func createAudioSeg(vodFS fs.FS, a *asset, rec audioRecipe) (*mp4.MediaSegment, 
 			sampleItvls[len(sampleItvls)-1].nrFillSamples = nrFills
 			break
 		}
-		sampleItvls[len(sampleItvls)-1].endIdx = uint32((rec.audioInEnd - nextAudioStart) / sampleDur)
+		// nextAudioStart is the time of startIdx: the segment start, or audioInStart for the first interval
+		sampleItvls[len(sampleItvls)-1].endIdx = sampleItvls[len(sampleItvls)-1].startIdx +
+			uint32((rec.audioInEnd-nextAudioStart)/sampleDur)
 		timeCollected += sampleItvls[len(sampleItvls)-1].dur(sampleDur)
 		break
 	}
